@@ -32,8 +32,10 @@ from ..util import call_attr
 EXPLANATION = __doc__
 RX = "openpectus.lang.exec.regex"
 E_, A_, U_ = "", "", ""
-ALPHA = ["5", ".", "-", "+", " ", E_, A_, U_, "#"]
-NAMES = {"5": "<digit>", E_: "<excl>", A_: "<add>", U_: "<unit>", " ": "<space>", "#": "<other>"}
+# one representative per class of characters the patterns can tell apart; "\u0663" (ARABIC-INDIC DIGIT THREE) stands for the
+# non-ASCII decimal digits that `\d` matches in a str pattern but `[0-9]` (the documented language) does not
+ALPHA = ["5", ".", "-", "+", " ", E_, A_, U_, "#", "\u0663"]
+NAMES = {"5": "<digit>", E_: "<excl>", A_: "<add>", U_: "<unit>", " ": "<space>", "#": "<other>", "\u0663": "<non-ASCII digit>"}
 
 
 def show(word: str) -> str:
